@@ -716,7 +716,7 @@ fn run_script(ops: &[Op], queries: bool, m: &mut Model, rep: Option<&mut Report>
         if !im.odd_keys.is_empty() {
             return Some(SeqFail { at: i, what: format!("unexpected keys {:?}", im.odd_keys), violation: None });
         }
-        if queries {
+        if queries && qr.chance(1, 3) {
             // scans: all_edges / all_nodes / counts vs model AND vs the store image
             let all = g.all_edges();
             let a = show_edges(&all);
@@ -747,6 +747,8 @@ fn run_script(ops: &[Op], queries: bool, m: &mut Model, rep: Option<&mut Report>
             if a != b {
                 return Some(SeqFail { at: i, what: format!("counts: impl={a} model={b}"), violation: None });
             }
+        }
+        if queries {
             // queries: answers vs model AND vs the edge-set oracle
             let nq = 1 + qr.below(2);
             for _ in 0..nq {
@@ -785,6 +787,12 @@ fn run_script(ops: &[Op], queries: bool, m: &mut Model, rep: Option<&mut Report>
                 let b = m.ask(&format!("trav {n} {dir} {depth} {tys}"));
                 if a != b {
                     return Some(SeqFail { at: i, what: format!("trav {n} {dir} {depth} {tys}: impl={a} model={b}"), violation: None });
+                }
+                if qr.chance(1, 2) {
+                    if let Some(r) = rep.as_deref_mut() {
+                        r.hit("seq.query");
+                    }
+                    continue;
                 }
                 // ---- edges_of / edges_of_paginated / neighbors_paginated / degree by type
                 let (a, ids) = q_eof(&g, n, dir);
@@ -864,6 +872,7 @@ fn run_script(ops: &[Op], queries: bool, m: &mut Model, rep: Option<&mut Report>
                 }
                 if let Some(r) = rep.as_deref_mut() {
                     r.hit("seq.query");
+                    r.hit("seq.query.edges_of_pages_bytype_reads");
                 }
             }
         }
@@ -1441,6 +1450,13 @@ fn main() {
     );
     let mut m = Model::spawn(&args.driver);
     let root = Rng::new(args.seed);
+    let t0 = std::time::Instant::now();
+    let timing = std::env::var("C05_TIMING").is_ok();
+    let lap = |what: &str| {
+        if timing {
+            eprintln!("C05_TIMING {what} at {:.1}s", t0.elapsed().as_secs_f64());
+        }
+    };
     let scale: u64 = if args.thorough { 10 } else { 1 };
 
     // ---------------- (i) sequential differential
@@ -1545,6 +1561,7 @@ fn main() {
         }
     }
 
+    lap("sequential done");
     // ---------------- (ii-a) Lean witness schedules replayed on the real engine (the two KNOWN races
     //                  first, on every run), then the schedules of the three races fixed by the list lock
     let mut per_class: BTreeMap<String, u32> = BTreeMap::new();
@@ -1592,6 +1609,7 @@ fn main() {
         }
     }
 
+    lap("witness/regress done");
     // ---------------- (ii-b) disjoint footprints: the regime of `quiescent_wf_partial`
     let mut r = root.fork("conc.disjoint");
     for _ in 0..150 * scale {
@@ -1603,6 +1621,7 @@ fn main() {
         }
     }
 
+    lap("conc.disjoint done");
     // ---------------- (ii-c) overlapping operations, seeded random schedules
     let mut r = root.fork("conc.random");
     for i in 0..600 * scale {
@@ -1613,6 +1632,7 @@ fn main() {
         }
     }
 
+    lap("conc.random done");
     rep.expected_branches = [
         "seq.create_node.ok", "seq.create_edge.ok", "seq.create_edge.err_node_not_found", "seq.delete_edge.ok",
         "seq.delete_edge.err_edge_not_found", "seq.delete_node.ok", "seq.delete_node.err_node_not_found",
